@@ -199,5 +199,34 @@ def replay(payload, drv):
     return out
 
 
+def metadata_witness():
+    """D16: a references node inside a metadata element that names the id of ANOTHER metadata element (which lies below a metadata
+    element, so its id attribute and its two children are never validated).  Referencing and referenced element are governed by the
+    same rule, the tree validates, and after expansion the referencing metadata element has two children: no longer valid."""
+    T = impl.T
+    inner = T("metadata", None, [T("x"), T("y")], [["id", "m1"]])
+    am1 = T("additionalMetadata", None, [T("metadata", None, [inner])])
+    am2 = T("additionalMetadata", None, [T("metadata", None, [T("references", "m1")])])
+    return T("eml", None, [T("access", None, [T("allow", None, [T("principal", "p"), T("permission", "read")])], [["authSystem", "a"]]),
+                           T("dataset", None, [T("title", "t"), T("creator", None, [T("organizationName", "o")]),
+                                               T("contact", None, [T("organizationName", "o")])]), am1, am2],
+             [["packageId", "p"], ["system", "s"]])
+
+
 def replay_finding(f):
+    """still failing? -> description"""
+    if f.get("id") != "D16-metadata-references":
+        return None
+    impl.reset()
+    root = impl.build(metadata_witness())
+    before = []
+    validate.tree(root, before)
+    try:
+        references.expand(root)
+    except Exception:
+        return None
+    after = []
+    validate.tree(root, after)
+    if not before and after:
+        return f["what"]
     return None
